@@ -110,8 +110,9 @@ type Store interface {
 	// panics with BudgetExceeded (deterministic replacement for a wall-clock watchdog).
 	SetBudget(n int)
 	SlotLength() int
-	// Shape classifies the tree as seen by the last Walk: "even" (all leaves at one depth, no nil child),
-	// "nil" (some nil child pointer), "uneven" (leaves at different depths), "uneven+nil"; "?" when not owned.
+	// Shape classifies the tree as seen by the last Walk: "even" (all leaves at one depth, no nil child
+	// pointer) or "uneven" (leaves at different depths and/or a nil child pointer somewhere: the states in
+	// which the leaf load balancing code takes its special paths); "?" when not owned.
 	Shape() string
 	// Dump renders the tree shape held by the harness-owned repository (diagnostics in failure details).
 	Dump() string
@@ -449,15 +450,8 @@ func (s *gstore[TK]) Shape() string {
 	if s.repo == nil {
 		return "?"
 	}
-	sh := "even"
-	if s.maxLeaf >= 0 && s.minLeaf != s.maxLeaf {
-		sh = "uneven"
+	if s.hasNil || (s.maxLeaf >= 0 && s.minLeaf != s.maxLeaf) {
+		return "uneven"
 	}
-	if s.hasNil {
-		if sh == "even" {
-			return "nil"
-		}
-		return sh + "+nil"
-	}
-	return sh
+	return "even"
 }
